@@ -79,6 +79,12 @@ theorem stream_with_truncated_tail (xs : List Sent) (y : Sent) (q s : Bytes) (hw
   parseStream_whole xs q (xs.length + 1) (Nat.le_succ _) hw
     (frame_prefix_fails y.pcode y.license y.payload q s hy.1 hy.2 hs hq)
 
+/-- the same with any amount of fuel that suffices (the parse does not depend on the bound once it is large enough:
+    the bound running out is never what stops it) -/
+theorem stream_parse_any_fuel (xs : List Sent) (q : Bytes) (fuel : Nat) (hf : xs.length ≤ fuel) (hw : ∀ x ∈ xs, x.wf)
+    (hq : P.run parseFrame q = none) : parseStream fuel (streamOf xs ++ q) = (xs.map Sent.parts, q) :=
+  parseStream_whole xs q fuel hf hw hq
+
 /-- a stream that starts with the TAIL of a frame does not pass for a stream of whole frames: if the parse of
     a connection's bytes is not (all frames, nothing left), the bytes are not a concatenation of whole frames -/
 theorem not_whole_frames_detected (xs : List Sent) (bs : Bytes) (hw : ∀ x ∈ xs, x.wf)
@@ -436,14 +442,16 @@ theorem wf_tagcount (wfv : Value → Prop) (p : TagCount) :
     (tagCountC wfv).wf p ↔ WFHdr p.hdr ∧ True ∧ p.category.length < 2147483648 ∧ inRange 8 p.tagHash ∧
       wfv (.map p.tags) ∧ wfv (.map p.data) := Iff.rfl
 
-/-- whole message: a receiver parses the frame, reads the pack type and decodes the body, and
-    nothing is left over -/
+/-- whole message, generic in the body codec: a receiver parses the frame and gets exactly (10, 0, pcode, hash of the
+    license, payload); the payload starts with the pack type and the rest decodes to the fields, nothing left over
+    (the per-pack statements `collector_decodes_*` below are the same for the dispatching collector) -/
 theorem message_decodable {α : Type} (c : Codec α) (hc : c.RT) (ty : Nat) (x : α) (pcode : Int) (license : Bytes)
     (hty : ty < 65536) (hp : inRange 8 pcode) (wf : c.wf x)
     (hl : (payload ty (c.enc x)).length < 2147483648) :
-    ∃ pl, P.run parseFrame (frame pcode license (payload ty (c.enc x))) = some (⟨10, 0, pcode, hash64 license, pl⟩, []) ∧
-      ∃ body, P.run (rdU 2) pl = some (ty, body) ∧ c.dec body = some (x, []) := by
-  refine ⟨payload ty (c.enc x), ?_, c.enc x, ?_, ?_⟩
+    P.run parseFrame (frame pcode license (payload ty (c.enc x)))
+        = some (⟨10, 0, pcode, hash64 license, payload ty (c.enc x)⟩, []) ∧
+    P.run (rdU 2) (payload ty (c.enc x)) = some (ty, c.enc x) ∧ c.dec (c.enc x) = some (x, []) := by
+  refine ⟨?_, ?_, ?_⟩
   · have := run_parseFrame pcode license (payload ty (c.enc x)) [] hp hl
     simpa [netSrcOneWay, netSrcVersion] using this
   · have := (payload_layout ty (c.enc x) [] hty).2
@@ -694,6 +702,42 @@ example : hash64 (ascii "abcdefg") = 3463164852 := by decide +kernel
 example : (foldAttrs ⟨⟨0, 0, 0, 0, 0⟩, [], true, 30, [], [], -5, 7, []⟩).map (fun kv => kv.1) = [keyEsca, keyStatus, keyOtype] := by
   decide +kernel
 example : decText (-5) = ascii "-5" ∧ decText 2147483647 = ascii "2147483647" ∧ decText 0 = ascii "0" := by
+  decide +kernel
+
+/-! audit round: non-vacuity of the hypotheses that had no example yet, and sharpness of the one-byte count -/
+
+example : (tagCountC Value.WFV).wf (TagCount.norm ⟨⟨1, 2, 0, 0, 3⟩, ascii "c", 7, [(ascii "k", .text (ascii "v"))], [(ascii "n", .dec 5)]⟩) := by
+  rw [wf_tagcount]
+  decide +kernel
+
+example : (logSinkC Value.WFV).wf (LogSink.norm ⟨⟨1, 2, 0, 0, 3⟩, ascii "c", 7, [], 5, ascii "x", []⟩) := by
+  show WFHdr _ ∧ True ∧ _ < 2147483648 ∧ inRange 8 _ ∧ Value.WFV _ ∧ inRange 8 _ ∧ _ < 2147483648 ∧ (optMapC Value.WFV).wf _
+  refine ⟨by decide, trivial, by decide, by decide, by decide, by decide, by decide, ?_⟩
+  show (Codec.opt (Codec.smap Value.WFV)).wf (optOfMap [])
+  exact trivial
+
+example : textC.wf ⟨⟨1, 2, 0, 0, 3⟩, [⟨1, -5, ascii "t"⟩]⟩ := by
+  rw [wf_text]
+  decide +kernel
+
+example : (paramC Value.WFV).wf ⟨⟨1, 2, 0, 0, 3⟩, 4, 5, 6, [(ascii "k", .dec 1)]⟩ := by
+  rw [wf_param]
+  decide +kernel
+
+example : eventWireC.wf (Event.toWire ⟨⟨1, 2, 0, 0, 3⟩, ascii "u", true, 30, ascii "t", [], -5, 7, [(ascii "host", ascii "a")]⟩) := by
+  rw [wf_event]
+  decide +kernel
+
+example : ∃ p : TagCount, p.norm.tagHash ≠ 0 := ⟨⟨⟨1, 2, 0, 0, 3⟩, [], 5, [], []⟩, by decide⟩
+
+example : ∃ p : TagCount, p.tagHash = 0 ∧ p.tags ≠ [] := ⟨⟨⟨1, 2, 0, 0, 3⟩, [], 0, [([1], .null)], []⟩, by decide⟩
+
+/-- the hypothesis "at most 255 attributes on the wire" of `decodable_event` is exactly what the one-byte count can
+    carry: with 256 (252 of the application + the four reserved ones) the count byte is 0 and the reference decoder
+    does not get the event back — the writer (`byte(sz)`) has no guard there; such events are outside the protocol -/
+theorem event_attr_cap_is_sharp :
+    let e : Event := ⟨⟨1, 2, 0, 0, 3⟩, ascii "u", false, 0, [], [], 0, 0, (List.range 252).map (fun i => ([i], []))⟩
+    (foldAttrs e).length = 256 ∧ eventWireC.dec (encEvent e) ≠ some (e.toWire, []) := by
   decide +kernel
 
 end C05
